@@ -53,7 +53,11 @@ func concretise(toks []string, rng *rand.Rand, ws bool) []byte {
 func isWS(c byte) bool { return c == ' ' || c == '\t' || c == '\n' || c == '\r' }
 
 // run parses input and records the trace.
-func run(w *tr.Writer, input []byte, gen tr.E) (units int) {
+// bystanderDoc is parsed by a second, unrelated Parser that is alive while the observed one runs (one step between any two
+// calls of the observed parser, started again at its end): parsers are independent values, so this changes nothing.
+var bystanderDoc = []byte(`{"k":[{"x":1},[2,[3,{}]]],"m":{"n":null,"o":[]}}`)
+
+func run(w *tr.Writer, input []byte, gen tr.E, bystander bool) (units int) {
 	n := len(input)
 	back := make([]byte, n, n+1)
 	copy(back, input)
@@ -73,10 +77,25 @@ func run(w *tr.Writer, input []byte, gen tr.E) (units int) {
 	for k, v := range gen {
 		open[k] = v
 	}
+	open["bystander"] = bystander
 	w.Ev("Open", open)
+	var other *json.Parser
+	stepOther := func() {
+		if !bystander {
+			return
+		}
+		if other == nil {
+			other = json.NewParser(parse.NewInputBytes(append([]byte{}, bystanderDoc...)))
+		}
+		if gt, _ := other.Next(); gt == json.ErrorGrammar {
+			other = nil
+		}
+	}
+	stepOther()
 	p := json.NewParser(in)
 	end := 0
 	for calls := 0; calls < 4*n+16; calls++ {
+		stepOther()
 		ev := tr.E{}
 		var gt json.GrammarType
 		var data []byte
@@ -188,7 +207,7 @@ func Replay(args []string) {
 		if stdjson.Valid(input) {
 			sum.Valid++
 		}
-		if run(w, input, gen) >= 3 {
+		if run(w, input, gen, tid%2 == 0) >= 3 {
 			sum.Nontrivial++
 		}
 		w.End(true)
@@ -262,7 +281,8 @@ func File(args []string) {
 	tid := 0
 	err := tr.ReadCases(*in, func(line int, raw []byte) {
 		var c struct {
-			Input []int `json:"input"`
+			Input     []int `json:"input"`
+			Bystander bool  `json:"bystander"`
 		}
 		if err := stdjson.Unmarshal(raw, &c); err != nil {
 			os.Exit(2)
@@ -273,7 +293,7 @@ func File(args []string) {
 		}
 		tid++
 		w.Begin(tid)
-		run(w, b, nil)
+		run(w, b, nil, c.Bystander)
 		w.End(true)
 		sum.Executions++
 	})
